@@ -679,9 +679,9 @@ def module_cases(ctx, n, n_hist, n_derived=0, n_samename=0, n_wide=0, n_own=0):
                 # ONE expression per design: netlist, stimulus and (if the texts agree field by field) the module
                 # are written once and shared by the reference run and the runs under each add_reset option
                 mod0, runs = None, []
-                design_head = ('let nl := %s in let order := %s in let mm := %s in let ins := %s in let pr := %s in '
-                               % (dump.coq(), nlx.zlist(order), dump.memmap(memmap), dump.inputs(inputs),
-                                  nlx.pairs(probes)))
+                # (a beta-redex, not let-in: Coq elaborates `let x := <big term> in` pathologically slowly)
+                design_args = [dump.coq(), nlx.zlist(order), dump.memmap(memmap), dump.inputs(inputs),
+                               nlx.pairs(probes)]
             try:
                 if mod0 is None:
                     mod0, m0term = mod, mod.coq(idmap)
@@ -709,7 +709,8 @@ def module_cases(ctx, n, n_hist, n_derived=0, n_samename=0, n_wide=0, n_own=0):
                 if e[0] == 'dec':
                     ctx.count('unsized_literals', '>=2^31' if e[1] >= (1 << 31) else '<2^31')
         if dump is not None and runs:
-            exprs.append('%slet m0 := %s in [spec_case nl 0 [] mm ins pr; %s]' % (design_head, m0term, '; '.join(runs)))
+            exprs.append('(fun nl order mm ins pr m0 => [spec_case nl 0 [] mm ins pr; %s]) %s' % (
+                '; '.join(runs), ' '.join(design_args + [m0term])))
             expr_of[i] = len(exprs) - 1
         if dump is not None:
             for o in d.ops:
